@@ -241,17 +241,21 @@ pub struct TxSpec {
 impl TxSpec {
     pub fn draw(p: &mut Prng, max_in: usize, max_out: usize) -> TxSpec {
         let small = p.chance(3, 4);
+        // rarely, counts on both sides of the one-byte varint boundary (252/253) — only where the caller allows
+        // more than a handful of elements
+        let many_in = max_in >= 8 && p.chance(1, 60);
+        let many_out = max_out >= 8 && p.chance(1, 60);
         TxSpec {
             seed: p.u64(),
-            n_in: if small { p.urange(0, max_in.min(3)) } else { p.urange(0, max_in) },
-            n_out: if small { p.urange(0, max_out.min(3)) } else { p.urange(0, max_out) },
+            n_in: if many_in { p.urange(250, 256) } else if small { p.urange(0, max_in.min(3)) } else { p.urange(0, max_in) },
+            n_out: if many_out { p.urange(250, 256) } else if small { p.urange(0, max_out.min(3)) } else { p.urange(0, max_out) },
             coinbase: p.chance(1, 8),
             pegin: p.chance(1, 3),
             issuance: p.chance(1, 2),
             confidential: p.chance(2, 3),
             in_witness: p.chance(1, 2),
             out_witness: p.chance(1, 2),
-            max_blob: *p.pick(&[40usize, 300, 300, 70_000]),
+            max_blob: if many_in || many_out { 40 } else { *p.pick(&[40usize, 300, 300, 70_000]) },
         }
     }
     /// simpler variants for the minimiser
